@@ -356,10 +356,33 @@ func runGF(sc scen) result {
 		p.callers = rr(rng, 1, 2)
 		p.kinds = "f"
 		closeDelay = ms(rr(rng, 40, 150))
+		if api == "metadata" {
+			ft.add("silent-step-family") // the leader lookup's Metadata request is never answered
+		}
 		if api == "listoffsets" {
 			e.wd = 25 * time.Second
 			wNever, wAfter, wBefore = 1, 2, 0
+			ft.add("silent-step-family") // the leader connection falls silent at ListOffsets
 		}
+	case "silent-metadata":
+		// silent-step family on groupfake: the Metadata request of the leader lookup
+		// (Dialer.LookupPartition, a connection without deadline) is never answered; one caller
+		// blocked in FetchMessage; Close 10-30 ms after that request arrived
+		ft.add("silent-step-family")
+		ft.add("broker=silent")
+		ft.add("silent-api=md")
+		st.watchAPI, st.watchCh = "metadata", make(chan struct{})
+		st.fault = func(a string, n int) groupfake.Fault {
+			if a == "metadata" {
+				return groupfake.Fault{Delay: silence}
+			}
+			return groupfake.Fault{}
+		}
+		p.callers, p.ncalls = 1, 1
+		p.kinds = "f"
+		wNever, wAfter, wBefore = 1, 0, 0
+		trig = "req"
+		closeDelay = ms(rr(rng, 10, 30))
 	case "stable":
 		p.callers = rng.Intn(2)
 		trig = "hb2"
@@ -476,6 +499,9 @@ func runGF(sc scen) result {
 			return groupfake.Fault{}
 		}
 		e.wd = 25 * time.Second
+		if api == "findcoordinator" || api == "join" {
+			ft.add("silent-step-family") // the coordinator connection falls silent during set-up
+		}
 		mNever = false // (a call that never returns would cost the long watchdog)
 		p.callers = rr(rng, 0, 2)
 		nrec0 = rr(rng, 3, 10)
